@@ -182,7 +182,7 @@ func init() {
 		pkgPath:   "github.com/yandex/pandora/core/engine",
 		module:    "InstLoop",
 		namespace: "Pandora.Gen.InstLoop",
-		imports:   []string{"Pandora.Model.C03Loop", "Pandora.Model.C03Await", "Pandora.Model.C03Start", "Pandora.Model.C03Comp"},
+		imports:   []string{"Pandora.Model.C03Loop", "Pandora.Model.C03Await", "Pandora.Model.C03Start", "Pandora.Model.C03Comp", "Pandora.Model.C03Pool"},
 		extra:     instloopExtra,
 	}
 }
